@@ -58,11 +58,12 @@ var ring = map[string]string{sig.Logs: sig.Metrics, sig.Metrics: sig.Traces, sig
 
 // GComp is the behaviour of a processor or exporter id.
 type GComp struct {
-	Mutates bool `json:"mut"`
-	Sync    []Op `json:"sync,omitempty"`
-	Async   []Op `json:"async,omitempty"` // exporters only
-	Gate    int  `json:"gate,omitempty"`
-	Fail    bool `json:"fail,omitempty"` // exporters only
+	Mutates bool   `json:"mut"`
+	Sync    []Op   `json:"sync,omitempty"`
+	Async   []Op   `json:"async,omitempty"` // exporters only
+	Gate    int    `json:"gate,omitempty"`
+	Fail    bool   `json:"fail,omitempty"`     // exporters only
+	ErrKind string `json:"err_kind,omitempty"` // see Cons.ErrKind
 	// Undeclared (non-mutating exporters only): mutation steps attempted when —
 	// and only when — the payload received is marked read-only; each must panic.
 	Undeclared []Op `json:"undeclared,omitempty"`
@@ -165,6 +166,9 @@ func genGraph(t *rapid.T) GraphScript {
 	for i, n := 0, rapid.IntRange(1, 4).Draw(t, "nexp"); i < n; i++ {
 		id := fmt.Sprintf("%s/e%d", expType, i)
 		c := GComp{Mutates: rapid.Bool().Draw(t, "expmut"), Fail: pct(t, "expfail", 20)}
+		if c.Fail {
+			c.ErrKind = rapid.SampledFrom([]string{"", "", "deadline", "canceled", "permanent", "joined"}).Draw(t, "experrkind")
+		}
 		if c.Mutates {
 			c.Sync = genProgram(t, "expsync", 2, ix)
 			if pct(t, "expmarksync", 80) {
@@ -434,7 +438,7 @@ func (w *gworld) exp(signal string, id component.ID) capser {
 			})
 		}
 		if cfg.Fail {
-			return fmt.Errorf("export failed: %w", e)
+			return fmt.Errorf("export failed: %w", shapeErr(e, cfg.ErrKind))
 		}
 		return nil
 	})
